@@ -150,8 +150,13 @@ fn cfgs() -> Vec<Cfg> {
             }
         }
     }
+    // hook 6 = no hook, but the Runner is built, THEN the harness waits 12 ms, then runs it with a time limit of 8 ms: the
+    // limit is about the run, not about the age of the Runner value
+    v.push(Cfg { iter_limit: 5, node_limit: 10_000, time_zero: false, hook: 6 });
     v
 }
+
+const DELAYED_LIMIT_MS: u64 = 8;
 
 /// after a run stopped as Saturated: one more application of every rule changes nothing
 fn check_saturated(eg: &mut EGraph<Ar>, rules_idx: &[usize], ctx: &str, fails: &mut Vec<Fail>, evals: &mut u64) {
@@ -224,9 +229,17 @@ fn run_runner(start: &T, rules_idx: &[usize], c: Cfg) -> (Vec<Fail>, u64, u64, V
     let cl = calls.clone();
     let hookno = c.hook;
     let t_start = std::time::Instant::now();
+    let run_started: std::rc::Rc<std::cell::Cell<Option<std::time::Instant>>> = Default::default();
+    let run_started2 = run_started.clone();
+    let run_started = run_started2;
+    let rs_outer = run_started.clone();
     let r = catch(|| {
-        let mut runner: Runner<Ar, (), (), String> = Runner::new(()).with_expr(&re).with_iter_limit(c.iter_limit).with_node_limit(c.node_limit).with_time_limit(if c.time_zero { Duration::ZERO } else { Duration::from_secs(GENEROUS_TIME_LIMIT_S) });
-        if hookno > 0 {
+        let mut runner: Runner<Ar, (), (), String> = Runner::new(()).with_expr(&re).with_iter_limit(c.iter_limit).with_node_limit(c.node_limit).with_time_limit(if c.time_zero { Duration::ZERO } else if hookno == 6 { Duration::from_millis(DELAYED_LIMIT_MS) } else { Duration::from_secs(GENEROUS_TIME_LIMIT_S) });
+        if hookno == 6 {
+            std::thread::sleep(Duration::from_millis(12));
+            run_started.set(Some(std::time::Instant::now()));
+        }
+        if hookno > 0 && hookno < 6 {
             runner = runner.with_hook(move |r: &mut Runner<Ar, (), (), String>| {
                 cl.set(cl.get() + 1);
                 if hookno >= 4 {
@@ -282,7 +295,13 @@ fn run_runner(start: &T, rules_idx: &[usize], c: Cfg) -> (Vec<Fail>, u64, u64, V
                 }
                 StopReason::TimeLimit => {
                     goals |= 8;
-                    if !c.time_zero && t_start.elapsed().as_secs() < GENEROUS_TIME_LIMIT_S {
+                    if c.hook == 6 {
+                        if let Some(t) = rs_outer.get() {
+                            if (t.elapsed().as_millis() as u64) < DELAYED_LIMIT_MS {
+                                fails.push(("untrue-stop-reason".into(), format!("TimeLimit reported with a time limit of {DELAYED_LIMIT_MS} ms by a run() that returned within that time (the Runner was built 12 ms before run() was called) {ctx}"), String::new()));
+                            }
+                        }
+                    } else if !c.time_zero && t_start.elapsed().as_secs() < GENEROUS_TIME_LIMIT_S {
                         fails.push(("untrue-stop-reason".into(), format!("TimeLimit reported with a time limit of {GENEROUS_TIME_LIMIT_S} s by a call that returned within that time {ctx}"), String::new()));
                     }
                 }
